@@ -80,7 +80,8 @@ def impl_main(payload):
     results = []
     rng = random.Random(payload["seed"])
     eqs = ["C_0*X_0 + C_1", "C_0*X_0*X_0 + C_1", "sin(C_0*X_0) + C_1", "X_0 + 2.0", "C_0*exp(C_1*X_0)/(1.0 + exp(C_1*X_0))",
-           "C_0 + C_1*X_0 + C_2*X_0*X_0 + C_3*X_0*X_0*X_0"]
+           "C_0 + C_1*X_0 + C_2*X_0*X_0 + C_3*X_0*X_0*X_0", "X_0 + 0*2.5 (simplified: no constants, requests optimisation)",
+           "X_0 + X_0 (constant mutated away before the first evaluation)"]
     methods = ["lm", "BFGS", "Nelder-Mead", "Powell", "CG", "L-BFGS-B", "TNC", "SLSQP"]
     try:
         for c in payload["cases"]:
@@ -95,7 +96,15 @@ def impl_main(payload):
                 fit = ExplicitRegression(ExplicitTrainingData(x, y), metric=metric)
                 opt = so.ScipyOptimizer(fit, method=c["method"], tol=1e-6, param_init_bounds=[-1, 1])
                 lo = LocalOptFitnessFunction(fit, opt)
-                g = AGraph(equation=eqs[c["eq"]])
+                if c["eq"] == 6:
+                    # constants that vanish under simplification: the equation requests optimisation and holds none
+                    g = AGraph(use_simplification=True, equation="X_0 + 0*2.5")
+                elif c["eq"] == 7:
+                    # the only constant-using command overwritten before the first evaluation (as a mutation does)
+                    g = AGraph(equation="X_0 + 1.5")
+                    g.mutable_command_array[-1] = [2, 0, 0]
+                else:
+                    g = AGraph(equation=eqs[c["eq"]])
                 L = g.get_number_local_optimization_params()
                 if not c["needs"]:
                     g.set_local_optimization_params(tuple(float(i + 1) for i in range(L)))
@@ -103,6 +112,8 @@ def impl_main(payload):
 
                 def code(vec):
                     key = tuple(float(v).hex() for v in vec)
+                    if len(key) == 0:
+                        return []           # no constants: the empty vector is its own code
                     if key not in codes:
                         codes[key] = len(codes)
                     return [codes[key]] if True else None
@@ -124,9 +135,13 @@ def impl_main(payload):
                     raised = False
                 except TypeError:
                     raised, v = True, None
+                except Exception as e:  # noqa   anything else is not part of the wrapper's contract
+                    raised, v = True, None
+                    viol.append("the locally optimizing wrapper raised %r for %s with method %s (%d constants, optimisation requested: %r)"
+                                % (e, eqs[c["eq"]], c["method"], L, needs))
                 fin = tuple(float(q) for q in g.get_local_optimization_params())
                 # independent base fitness of the constants now held
-                g2 = AGraph(equation=eqs[c["eq"]])
+                g2 = g.copy() if c["eq"] >= 6 else AGraph(equation=eqs[c["eq"]])
                 g2.set_local_optimization_params(fin)
                 indep = float(ExplicitRegression(ExplicitTrainingData(x, y), metric=metric)(g2))
 
@@ -138,7 +153,7 @@ def impl_main(payload):
                     runs.append([ok, [code(t) for t in trials[-3:]], code(finv) if ok else []])
                 while len(runs) < 2:
                     runs.append([True, [], []])
-                out = [7, 1 if g.needs_local_optimization() else 0, 1] + code(fin)
+                out = [7, 1 if g.needs_local_optimization() else 0, len(code(fin))] + code(fin)
                 table.append([code(fin), fcode(indep)])
                 if not raised:
                     out += [0] if math.isnan(float(v)) else [1, fcode(float(v))]
@@ -206,6 +221,9 @@ def check(rep, proof):
         cases.append(dict(kind=0, seed=rng.randrange(10 ** 6), eq=eq, method=methods[i % 8],
                           metric=rng.choice(["mae", "mse", "rmse"]), needs=rng.random() < 0.8, points=pts,
                           stale=rng.choice([0, 0, 1, 2])))
+    for i in range(16 if rep.tier == "quick" else 160):     # zero constants but a pending optimisation request, every method
+        cases.append(dict(kind=0, seed=rng.randrange(10 ** 6), eq=6 + i % 2, method=methods[(i // 2) % 8],
+                          metric=rng.choice(["mae", "mse", "rmse"]), needs=True, points=8, stale=0))
     for i in range(6 if rep.tier == "quick" else 60):      # more constants than data points: lm raises TypeError -> BFGS fallback
         cases.append(dict(kind=0, seed=rng.randrange(10 ** 6), eq=5, method="lm", metric="mse", needs=True, points=3))
     for i in range(400 if rep.tier == "quick" else 20000):
@@ -223,7 +241,8 @@ def check(rep, proof):
     rep.coverage.update(
         evaluations=len(results),
         distinct_nontrivial=len({repr(r["case"]) for r in results}),
-        rule="real LocalOptFitnessFunction + ScipyOptimizer on 6 equations (0-4 constants, one that produces NaN residuals) x 8 scipy "
+        rule="real LocalOptFitnessFunction + ScipyOptimizer on 8 equations (0-4 constants, one that produces NaN residuals, two that "
+             "hold no constant but request optimisation) x 8 scipy "
              "methods x 3 metrics with scipy.optimize wrapped to record trial vectors / results / TypeError (3 data points with 4 "
              "constants force the lm -> BFGS fallback); the recorded oracle is replayed through Model/LocalOpt.v; the returned float is "
              "compared bit-for-bit with an independent base-fitness evaluation of the final constants; half the individuals arrive with a "
